@@ -19,6 +19,17 @@ mod serializers;
 pub mod thread_info;
 #[cfg(feature = "verif-hooks")]
 pub mod verif_hooks;
+/// Re-exports of crate-internal writers for the verification harness.
+#[cfg(feature = "verif-hooks")]
+pub mod verif_api {
+    pub use super::auxv::AuxvDumpInfo;
+    pub use super::dso_debug::write_dso_debug_stream;
+    pub use super::dumper_cpu_info::{os_information, write_cpu_information};
+    pub use super::sections::{
+        app_memory, exception_stream, handle_data_stream, mappings, memory_info_list_stream,
+        memory_list_stream, systeminfo_stream, thread_list_stream, thread_names_stream,
+    };
+}
 
 pub use maps_reader::LINUX_GATE_LIBRARY_NAME;
 pub type Pid = i32;
